@@ -202,7 +202,7 @@ def jeq(exp, got):
     if isinstance(exp, bool) or isinstance(got, bool):
         return exp is got
     if isinstance(exp, float) or isinstance(got, float):
-        return isinstance(got, (int, float)) and float(exp) == float(got)
+        return isinstance(got, (int, float)) and isinstance(exp, (int, float)) and float(exp) == float(got)
     return type(exp) is type(got) and exp == got
 
 
@@ -260,7 +260,11 @@ class Apps(object):
             return outer.current()
         self.app = Application([('/basic', ep, render_basic), ('/basicdoc', ep_doc, render_basic), ('/json', ep, render_json), ('/jsondev', ep, render_json_dev),
                                 ('/stream', ep, JSONRender(streaming=True, dev_mode=True)),
-                                ('/jsonp', ep, JSONPRender(dev_mode=True))])
+                                ('/jsonp', ep, JSONPRender(dev_mode=True)),
+                                # the documented encoding= argument: the body must be what the declared charset says
+                                ('/jsonl1', ep, JSONRender(dev_mode=True, encoding='latin-1')),
+                                ('/streaml1', ep, JSONRender(streaming=True, dev_mode=True, encoding='iso-8859-1')),
+                                ('/jsonpl1', ep, JSONPRender(dev_mode=True, encoding='latin-1'))])
         self.ep = ep
 
     def fresh_basic(self):
@@ -298,22 +302,26 @@ def check_value(acc, A, desc, factory, info, fresh_cache):
     sample_value = factory()
     kind = info['kind']
     vname = desc[0] if kind != 'container' else 'container'
-    for route in ('/basic', '/basicdoc', '/json', '/jsondev', '/stream', '/jsonp'):
+    for route in ('/basic', '/basic#POST', '/basic#DELETE', '/basicdoc', '/json', '/jsondev', '/stream', '/jsonp', '/jsonl1', '/streaml1', '/jsonpl1'):
+        route, _, method = route.partition('#')
+        method = method or 'GET'
         combos = [(f, a, cb) for f in FORMATS for a in ACCEPTS for cb in (None,)] if route == '/basic' else \
                  [(f, a, None) for f in (None, 'html') for a in (None, 'text/html')] if route == '/basicdoc' else \
-                 [(None, a, cb) for a in (None, 'text/html') for cb in ((None, 'cb9') if route == '/jsonp' else (None,))]
+                 [(None, a, cb) for a in (None, 'text/html') for cb in ((None, 'cb9') if route.startswith('/jsonp') else (None,))]
+        if method == 'DELETE':
+            combos = [(f, a, None) for f in FORMATS for a in (None, 'text/html', 'application/json')]
         for fmt, accept, cb in combos:
             q = '&'.join(x for x in ('format=' + fmt if fmt else '', 'callback=' + cb if cb else '') if x)
             hdrs = {'Accept': accept} if accept else None
-            res = wsgi.call(A.app, route, 'GET', query=q, headers=hdrs)
+            res = wsgi.call(A.app, route, method, query=q, headers=hdrs)
             acc.evaluated += 1
             acc.transitions += 1
             acc.validated += 1
-            case = {'value': desc, 'route': route, 'format': fmt, 'accept': accept, 'callback': cb}
+            case = {'value': desc, 'route': route, 'format': fmt, 'accept': accept, 'callback': cb, 'method': method}
             ct = (res.header('Content-Type') or '').split(';')[0].strip() if res.headers else None
 
             def bad(k, msg):
-                acc.violation('C17:%s:%s:%s' % (k, route.strip('/'), vname if kind != 'container' else desc[0]),
+                acc.violation('C17:%s:%s%s:%s' % (k, route.strip('/'), '' if method == 'GET' else '-' + method, vname if kind != 'container' else desc[0]),
                               '%s; value %r (%r) via %s?%s Accept=%r -> %s %s %r'
                               % (msg, desc, sample_value if kind != 'generator' else 'generator', route, q, accept, res.status, ct,
                                  (res.body or b'')[:120]), case)
@@ -333,6 +341,7 @@ def check_value(acc, A, desc, factory, info, fresh_cache):
                             fresh_cache if route == '/basic' else None, q, hdrs, desc)
             else:
                 judge_json(bad, res, ct, body, sample_value, info, route, cb)
+
 
 
 def judge_basic(A, bad, res, ct, body, value, info, fmt, accept, factory, fresh_cache, q, hdrs, desc):
@@ -405,7 +414,7 @@ def judge_basic(A, bad, res, ct, body, value, info, fmt, accept, factory, fresh_
 
 def judge_json(bad, res, ct, body, value, info, route, cb):
     kind = info['kind']
-    dev = route in ('/jsondev', '/stream', '/jsonp')
+    dev = route in ('/jsondev', '/stream', '/jsonp', '/jsonl1', '/streaml1', '/jsonpl1')
     serialisable = dev or not has_unknown(value)
     if kind == 'generator':
         return           # generators are exhausted by iteration; outside the JSON clause
@@ -414,7 +423,20 @@ def judge_json(bad, res, ct, body, value, info, route, cb):
     if res.code != 200:
         bad('status-%s' % res.code, 'JSON renderer failed for a serialisable value')
         return
-    text = body.decode('utf-8', 'replace')
+    # a client decodes by the charset the Content-Type declares
+    charset = 'utf-8'
+    for part in (res.header('Content-Type') or '').split(';')[1:]:
+        k, _, v = part.strip().partition('=')
+        if k.lower() == 'charset' and v:
+            charset = v.strip('"')
+    want_cs = 'utf-8' if not route.endswith('l1') else ('iso-8859-1' if route == '/streaml1' else 'latin-1')
+    if charset.lower() != want_cs:
+        bad('json-charset-label', 'declared charset %r, the renderer was given %r' % (charset, want_cs))
+    try:
+        text = body.decode(charset)
+    except (UnicodeDecodeError, LookupError) as e:
+        bad('json-undecodable', 'body cannot be decoded by the declared charset %s: %s' % (charset, e))
+        return
     if cb:
         if ct != 'application/javascript':
             bad('jsonp-type', 'JSONP labelled %s' % ct)
@@ -474,7 +496,7 @@ def replay(case):
             check_value(acc, A, desc, factory, info, {})
             break
     bad = [v for v in acc.violations if v['case'].get('route') == case.get('route') and v['case'].get('format') == case.get('format')
-           and v['case'].get('accept') == case.get('accept')]
+           and v['case'].get('accept') == case.get('accept') and v['case'].get('method', 'GET') == case.get('method', 'GET')]
     if bad:
         return False, bad[0]['desc'][:2000]
     return True, 'ok'
